@@ -1,4 +1,4 @@
-import TinsModel.Ownership.LemmasInv
+import TinsModel.Ownership.LemmasFrame
 /-
   Property C12 — packet object trees keep sound ownership under copy, move, clone and re-linking.
 
@@ -277,5 +277,118 @@ theorem clone_deep_equal (ops : List Op) (i : Nat) (r : Ref) (s' : State)
         exact addrs_freshCopy_ge _ _ a ha
     · cases hA
   · cases hA
+
+theorem drop_splice {full : Chain} {d : Nat} {x : Nat × View} {post : Chain} (hdrop : full.drop d = x :: post)
+    (top : Nat × View) (tail : Chain) : (AState.splice full d top tail).drop d = top :: tail := by
+  unfold AState.splice
+  have hlen : d < full.length := by
+    apply Classical.byContradiction
+    intro hh
+    rw [List.drop_eq_nil_of_le (by omega)] at hdrop
+    cases hdrop
+  have : (full.take d).length = d := by simp; omega
+  rw [List.drop_append_of_le_length (by omega), List.drop_of_length_le (by omega)]
+  simp [List.drop_eq_nil_of_le, this]
+
+theorem sub_setChain_self {A : AState} {r : Ref} {sl : ASlot} (hsl : A.slot? r.slot = some sl) {x : Nat × View} {post : Chain}
+    (hdrop : sl.chain.drop r.depth = x :: post) (top : Nat × View) (tail : Chain) (n : Nat) :
+    ((A.setChain r.slot (AState.splice sl.chain r.depth top tail)).bump n).sub r = some (top :: tail) := by
+  obtain ⟨hi, e⟩ := slot?_some hsl
+  have h1 : ((A.setChain r.slot (AState.splice sl.chain r.depth top tail)).bump n).slot? r.slot =
+      some { sl with chain := AState.splice sl.chain r.depth top tail } := by
+    simp [AState.slot?, AState.bump, AState.setChain_slots hsl, hi]
+  simp only [AState.sub, h1, drop_splice hdrop]
+
+/-- copy assignment `*a = *b`: afterwards everything below the target layer equals everything below the source layer
+    at the time of copying — also when the source has fewer layers than the target had, or none —, it is made of
+    storage never used before, the target layer keeps its identity, and when both layers have the same class (the
+    member-wise `T::operator=`) the whole target equals the whole source. -/
+theorem copy_assign_equal (ops : List Op) (a b : Ref) (s' : State)
+    (h : step (run {} ops) (.assign a b) = some s') :
+    let s := run {} ops
+    ∃ xa ca yb cb xa' ca', s.chainAt a = xa :: ca ∧ s.chainAt b = yb :: cb ∧ s'.chainAt a = xa' :: ca' ∧
+      xa'.1 = xa.1 ∧ views ca' = views cb ∧ (∀ z ∈ addrs ca', s.heap.cells.length ≤ z) ∧
+      (xa.2.cls = yb.2.cls → views (s'.chainAt a) = views (s.chainAt b)) := by
+  intro s
+  have hr := model_refines_spec ops
+  obtain ⟨A', hA, hr'⟩ := step_rep hr h
+  rw [hr'.chainAt, hr.chainAt, hr.chainAt]
+  simp only [AState.step] at hA
+  split at hA
+  · next sl x ra y rb hsl hsa hsb =>
+    split at hA
+    · cases hA
+    · cases hA
+      obtain ⟨sl', hsl', hdrop, _, _⟩ := sub_spec hsa
+      rw [hsl] at hsl'; cases hsl'
+      rw [hsa, hsb, sub_setChain_self hsl hdrop]
+      simp only [Option.getD_some]
+      refine ⟨x, ra, y, rb, _, _, rfl, rfl, rfl, ?_, views_freshCopy _ _, ?_, ?_⟩
+      · split <;> rfl
+      · intro z hz; rw [← hr.next]; exact addrs_freshCopy_ge _ _ z hz
+      · intro hcls
+        have : AState.sameCls x y = true := by simp [AState.sameCls, hcls]
+        simp [this, views, views_freshCopy]
+        have := views_freshCopy (AState.run {} ops).next rb
+        simpa [views] using this
+  · cases hA
+
+/-- **independence**: an operation changes nothing that a handle it does not name observes — same layers, same
+    identities, same fields, at every depth.  With `handles_disjoint` (no layer is reachable from two handles) this is
+    "later changes to a copy or to its source never show through the other". -/
+theorem copy_independent (ops : List Op) (op : Op) (s' : State) (h : step (run {} ops) op = some s')
+    (j : Nat) (hj : touches op j = false) (d : Nat) : s'.chainAt ⟨j, d⟩ = (run {} ops).chainAt ⟨j, d⟩ := by
+  have hr := model_refines_spec ops
+  obtain ⟨A', hA, hr'⟩ := step_rep hr h
+  rw [hr'.chainAt, hr.chainAt]
+  have := spec_frame hA hj
+  simp only [AState.sub, AState.slot?, this]
+
+theorem handles_disjoint (ops : List Op) (i j : Nat) (hij : i ≠ j) (d e : Nat) :
+    ∀ x ∈ addrs ((run {} ops).chainAt ⟨i, d⟩), x ∉ addrs ((run {} ops).chainAt ⟨j, e⟩) := by
+  have hr := model_refines_spec ops
+  intro x hxi hxj
+  rw [hr.chainAt] at hxi hxj
+  cases hsi : (AState.run {} ops).sub ⟨i, d⟩ with
+  | none => rw [hsi] at hxi; simp at hxi
+  | some ci =>
+    cases hsj : (AState.run {} ops).sub ⟨j, e⟩ with
+    | none => rw [hsj] at hxj; simp at hxj
+    | some cj =>
+      rw [hsi] at hxi; rw [hsj] at hxj
+      simp only [Option.getD_some] at hxi hxj
+      obtain ⟨si, hsli, _, hci, _⟩ := sub_spec hsi
+      obtain ⟨sj, hslj, _, hcj, _⟩ := sub_spec hsj
+      have h1 : x ∈ addrs si.chain := by rw [hci, addrs_append]; exact List.mem_append_right _ hxi
+      have h2 : x ∈ addrs sj.chain := by rw [hcj, addrs_append]; exact List.mem_append_right _ hxj
+      exact hij (hr.slots_disjoint hsli hslj h1 h2)
+
+/-! ### the defect of the pinned tree, at model level -/
+
+def demoHeap : Heap :=
+  { cells := [some ⟨⟨0, 0, 7⟩, some 1, none⟩, some ⟨⟨1, 1, 9⟩, none, some 0⟩, some ⟨⟨0, 0, 5⟩, none, none⟩] }
+
+/-- the pinned `PDU::operator=` (`copy_inner_pdu` clones only if the source has an inner PDU): assigning a one-layer
+    packet over a two-layer packet keeps the old second layer … -/
+theorem pinned_copy_assign_keeps_old_inner :
+    views (chainFrom (assignBaseOld demoHeap 0 2) 3 (some 0)) = [⟨0, 0, 7⟩, ⟨1, 1, 9⟩] := by decide
+
+/-- … whereas the fixed one makes the target as short as its source and releases the old layer -/
+theorem fixed_copy_assign_drops_old_inner :
+    views (chainFrom (assignBase demoHeap 0 2) 3 (some 0)) = [⟨0, 0, 7⟩] ∧ (assignBase demoHeap 0 2).freed = [1] := by decide
+
+/-! ### non-vacuity -/
+
+def demoProgram : List Op :=
+  [.init 4, .new 0 0 0 7, .new 1 1 1 9, .diveq ⟨0, 0⟩ ⟨1, 0⟩, .clone 2 ⟨0, 0⟩, .set ⟨2, 1⟩ 33, .assign ⟨0, 0⟩ ⟨2, 0⟩,
+   .movector 3 ⟨2, 0⟩, .del 2, .release 2 ⟨3, 0⟩, .del 1, .pkown 1 2, .pkcopy 2 1, .fin]
+
+/-- a 14-step program over four handles that the guard accepts at every step … -/
+example : WellFormedProgram demoProgram := by unfold WellFormedProgram; decide
+
+/-- … and that really builds, copies, edits and re-links layers: before `end` three handles hold five live layers -/
+example : (run {} (demoProgram.take 13)).heap.live = 5 ∧ (run {} (demoProgram.take 13)).heap.freed.length = 3 := by decide
+
+example : (run {} demoProgram).heap.live = 0 ∧ (run {} demoProgram).heap.freed.length = 8 := by decide
 
 end Tins.Props.C12
